@@ -92,13 +92,35 @@ fn get_players<Client: QuakeClient>(bufferer: &mut Buffer<LittleEndian>) -> GDRe
     // read player lines until the end of the packet (some servers end it with a null byte)
     while bufferer.remaining_length() != 0 && bufferer.remaining_bytes() != [0x00] {
         let data = bufferer.read_string::<Utf8Decoder>(Some([0x0A]))?;
-        let data_split = data.split(' ').collect::<Vec<&str>>();
+        let data_split = split_player_line(&data);
         let data_iter = data_split.iter();
 
         players.push(Client::parse_player_string(data_iter)?);
     }
 
     Ok(players)
+}
+
+/// Split a player line into its space separated fields, a field in quotes can
+/// contain spaces.
+fn split_player_line(line: &str) -> Vec<&str> {
+    let mut fields = Vec::new();
+    let mut in_quotes = false;
+    let mut start = 0;
+
+    for (index, character) in line.char_indices() {
+        match character {
+            '\"' => in_quotes = !in_quotes,
+            ' ' if !in_quotes => {
+                fields.push(&line[start .. index]);
+                start = index + 1;
+            }
+            _ => {}
+        }
+    }
+    fields.push(&line[start ..]);
+
+    fields
 }
 
 pub fn client_query<Client: QuakeClient>(
